@@ -1,6 +1,9 @@
 package nodes
 
 import (
+	"io"
+	"errors"
+	"bytes"
 	"fmt"
 	"math/rand"
 	"strings"
@@ -112,7 +115,30 @@ func (c *c01cluster) issue(q c01req, nonce string) (stamp string, status int, er
 func (c *c01cluster) issueT(q c01req, nonce string, tcpTimeout time.Duration) (stamp string, status int, err error) {
 	n := c.nodes[q.Entry]
 	if q.Mode == "tcp" {
-		conn, st, err := DialTCP(n, q.Ep, "", tcpTimeout)
+		// the tunnelled protocol is client-speaks-first here, and what the client
+		// says happens to be an HTTP request naming ANOTHER endpoint: whoever
+		// interprets the tunnel's bytes as HTTP would route them elsewhere
+		pre := []byte("GET /c01-tunnel HTTP/1.1\r\nHost: " + c01HTTPEps[0] + ".piko.test\r\nX-Nonce: " + nonce + "\r\n\r\n")
+		conn, st, err := DialTCPPre(n, q.Ep, "", tcpTimeout, pre)
+		var te *TunnelHTTPError
+		if errors.As(err, &te) {
+			if te.Stamp != "" {
+				return te.Stamp, 200, nil // judged as a delivery: the stamp names the wrong endpoint
+			}
+			return "", 0, err
+		}
+		if err == nil {
+			// the echo upstream returns the preamble first
+			_ = conn.SetReadDeadline(time.Now().Add(20 * time.Second))
+			back := make([]byte, len(pre))
+			if _, rerr := io.ReadFull(conn, back); rerr == nil && !bytes.Equal(back, pre) {
+				conn.Close()
+				return st, 200, fmt.Errorf("tunnel echoed %q for the preamble %q", back, pre)
+			} else if rerr != nil {
+				conn.Close()
+				return "", 502, nil // the upstream went away mid-exchange (churn)
+			}
+		}
 		if err != nil {
 			if strings.Contains(err.Error(), "reading stamp") && tcpTimeout < 20*time.Second {
 				// under churn: the tunnel was opened to an upstream that
@@ -443,7 +469,94 @@ func runC01Cluster(r *rand.Rand, nNodes, requests, churnOps int, sh *core.Shard)
 	return nil, ""
 }
 
+// runC01GoAwayRemote: the entry node's only local upstream of an endpoint has
+// announced go-away (still connected, not accepting) while another node serves
+// the endpoint. Every request for it through the entry node - HTTP, and TCP
+// tunnels whose client speaks first with bytes that look like an HTTP request
+// for another endpoint - is served by an upstream of THAT endpoint or refused.
+func runC01GoAwayRemote(sh *core.Shard) (f *c01fail, inconclusive string) {
+	nodes, err := StartCluster(2, func(int) NodeOpts {
+		return NodeOpts{ProxyTimeout: 2 * time.Second, GossipInterval: 100 * time.Millisecond}
+	})
+	if err != nil {
+		return nil, "start cluster: " + err.Error()
+	}
+	defer StopAll(nodes)
+	ta, err1 := ListenTCP(nodes[0], "tg", "tg-a", ListenOpts{})
+	tb, err2 := ListenTCP(nodes[1], "tg", "tg-b", ListenOpts{})
+	ha, err3 := ListenHTTP(nodes[0], "hg", "hg-a", ListenOpts{})
+	hb, err4 := ListenHTTP(nodes[1], "hg", "hg-b", ListenOpts{})
+	hx, err5 := ListenHTTP(nodes[1], "hx", "hx-b", ListenOpts{})
+	for _, e := range []error{err1, err2, err3, err4, err5} {
+		if e != nil {
+			return nil, "listen: " + e.Error()
+		}
+	}
+	defer func() { ta.Shutdown(); tb.Shutdown(); ha.Shutdown(); hb.Shutdown(); hx.Shutdown() }()
+	want := []map[string]int{{"tg": 1, "hg": 1}, {"tg": 1, "hg": 1, "hx": 1}}
+	settled := func() bool {
+		for i, n := range nodes {
+			if !sameEps(n.Cluster().LocalNode().Endpoints, want[i]) {
+				return false
+			}
+		}
+		s, _ := Settled(nodes)
+		return s
+	}
+	if !core.WaitUntil(30*time.Second, 5*time.Millisecond, settled) {
+		return nil, "go-away scenario: routing did not settle"
+	}
+	ta.GoAway()
+	ha.GoAway()
+	pre := []byte("GET /c01-tunnel HTTP/1.1\r\nHost: hx.piko.test\r\nX-Nonce: g\r\n\r\n")
+	for i := 0; i < 4; i++ {
+		q := c01req{Entry: 0, Ep: "tg", Mode: "tcp"}
+		conn, st, err := DialTCPPre(nodes[0], "tg", "", 6*time.Second, pre)
+		sh.Count("goaway_then_remote_requests", 1)
+		var te *TunnelHTTPError
+		switch {
+		case errors.As(err, &te):
+			return &c01fail{"wrong-endpoint", fmt.Sprintf("TCP connection addressed to endpoint \"tg\" through a node whose only local upstream of it had announced go-away (another node serves it): %v", err), q}, ""
+		case err == nil:
+			conn.Close()
+			if stampEndpoint(st) != "tg" {
+				return &c01fail{"wrong-endpoint", fmt.Sprintf("TCP connection addressed to \"tg\" after a local go-away was delivered to upstream %s", st), q}, ""
+			}
+			sh.Count("goaway_then_remote_served", 1)
+		}
+		q = c01req{Entry: 0, Ep: "hg", Mode: "host"}
+		resp, err := Get(nodes[0].ProxyAddr(), "hg.piko.test", "/probe", [][2]string{{"X-Nonce", "g"}}, 20*time.Second)
+		sh.Count("goaway_then_remote_requests", 1)
+		if err != nil {
+			return nil, "go-away scenario: " + err.Error()
+		}
+		if st := resp.Header.Get("X-Stamp"); st != "" {
+			if stampEndpoint(st) != "hg" {
+				return &c01fail{"wrong-endpoint", fmt.Sprintf("request addressed to \"hg\" after a local go-away was delivered to upstream %s", st), q}, ""
+			}
+			sh.Count("goaway_then_remote_served", 1)
+		} else if resp.Status != 502 && resp.Status != 504 {
+			return &c01fail{"non-gateway-status", fmt.Sprintf("request addressed to \"hg\" after a local go-away got status %d without reaching an upstream", resp.Status), q}, ""
+		}
+	}
+	return nil, ""
+}
+
 func runC01(sh *core.Shard, a props.Args) {
+	if a.Shard%4 == 1 {
+		fmt.Printf("CASE C01 go-away then remote\n")
+		f, inc := runC01GoAwayRemote(sh)
+		if inc != "" {
+			f, inc = runC01GoAwayRemote(sh)
+		}
+		sh.Eval()
+		if inc != "" {
+			sh.Inconcl("%s", inc)
+		} else if f != nil {
+			sh.Violate(f.sig, f.what, map[string]any{"scenario": "goaway-then-remote", "request": f.q})
+			return
+		}
+	}
 	clusters := a.Pick(16, 160)
 	for i := 0; i < clusters; i++ {
 		if !a.Mine(i) {
@@ -477,12 +590,12 @@ func runC01(sh *core.Shard, a props.Args) {
 func init() {
 	props.Register(&props.Prop{
 		ID: "C01", Level: "exploration", Race: true, Parallel: 8,
-		Rule: "clusters of 1-4 real in-process nodes joined by gossip; 7 endpoints with near-miss ids (h1, h10, h1-x, H1 and the dotted h1.v2 served over HTTP; t1, t10 over the TCP route) each with 0-3 upstreams on seeded nodes; every upstream stamps its responses/streams with (endpoint, upstream id, node) and echoes a request nonce. Phase 1: 4 request goroutines address random (entry node, endpoint, mode in {first Host label, x-piko-endpoint, conflicting Host+header, the same with the header also listed in Connection, /_piko/v1/tcp}) while a churn goroutine connects, go-aways and disconnects upstreams; every outcome must be {stamp.endpoint == addressed endpoint with the right nonce} or {502, 504}. Phase 2: churn stops, 'settled' is decided logically (every node's registry equals the harness's open connections and every node's routing table mirrors every other node's own state; 30 s watchdog => inconclusive) and every (entry node, endpoint, mode) is probed: 200 with a stamp of that endpoint iff some upstream exists anywhere, else 502. Non-trivial cluster = saw locally served and forwarded responses and churn events overlapping in-flight requests; distinct = hash of (size, outcome counts, final placement).",
+		Rule: "clusters of 1-4 real in-process nodes joined by gossip; 7 endpoints with near-miss ids (h1, h10, h1-x, H1 and the dotted h1.v2 served over HTTP; t1, t10 over the TCP route) each with 0-3 upstreams on seeded nodes; every upstream stamps its responses/streams with (endpoint, upstream id, node) and echoes a request nonce. Phase 1: 4 request goroutines address random (entry node, endpoint, mode in {first Host label, x-piko-endpoint, conflicting Host+header, the same with the header also listed in Connection, /_piko/v1/tcp}) while a churn goroutine connects, go-aways and disconnects upstreams; every outcome must be {stamp.endpoint == addressed endpoint with the right nonce} or {502, 504}. TCP tunnels are client-speaks-first with a preamble that looks like an HTTP request for another endpoint (an HTTP answer inside a tunnel is a misdelivery). Scenario go-away-then-remote: the entry node's only local upstream announced go-away while another node serves the endpoint; HTTP requests and TCP tunnels are served by that endpoint or refused. Phase 2: churn stops, 'settled' is decided logically (every node's registry equals the harness's open connections and every node's routing table mirrors every other node's own state; 30 s watchdog => inconclusive) and every (entry node, endpoint, mode) is probed: 200 with a stamp of that endpoint iff some upstream exists anywhere, else 502. Non-trivial cluster = saw locally served and forwarded responses and churn events overlapping in-flight requests; distinct = hash of (size, outcome counts, final placement).",
 		Assumptions: []string{
 			"listeners are created both with a background context and, like the agent, with a connect-timeout context cancelled after connecting",
 			"interleavings of churn and requests are sampled by repetition, not enumerated",
 		},
-		RequireCounters: []string{"responses_local", "responses_forwarded", "settled_served", "settled_served_via_other_node", "settled_502", "churn_events_overlapping_a_request"},
+		RequireCounters: []string{"responses_local", "responses_forwarded", "settled_served", "settled_served_via_other_node", "settled_502", "churn_events_overlapping_a_request", "goaway_then_remote_requests", "goaway_then_remote_served"},
 		Shards:          func(tier string) int { return 16 },
 		Run:             runC01,
 	})
